@@ -93,12 +93,14 @@ func doMatchMatches(expression *grammar.MatchExpression, value reflect.Value) (b
 		re, ok = expression.Value.Converted.(*regexp.Regexp)
 	}
 	if !ok || re == nil {
+		// Not cached at creation time (an invalid pattern, or a tree that was
+		// not built by CreateEvaluator). The syntax tree may be shared by
+		// concurrent Evaluate calls, so it is not written to here.
 		var err error
 		re, err = regexp.Compile(expression.Value.Raw)
 		if err != nil {
 			return false, fmt.Errorf("Failed to compile regular expression %q: %v", expression.Value.Raw, err)
 		}
-		expression.Value.Converted = re
 	}
 
 	return re.Match(value.Convert(byteSliceTyp).Interface().([]byte)), nil
